@@ -288,7 +288,7 @@ SPECS["C03"] = dict(
 VSHIM = "github.com/panjf2000/gnet/v2/internal/vshim/vunix"
 VSHIM_MAP = ",".join("unix.%s=%s" % (f, VSHIM) for f in ["Read", "Write", "Writev", "Close", "Accept4", "EpollCtl", "EpollWait", "Recvfrom", "Sendto", "Send"])
 SHIM_INSTR = [
-    ["-map", VSHIM_MAP, "connection_unix.go", "eventloop_unix.go", "acceptor_unix.go", "pkg/io/io_linux.go", "pkg/socket/sock_cloexec.go", "pkg/netpoll/poller_epoll_default.go"],
+    ["-map", VSHIM_MAP, "connection_unix.go", "eventloop_unix.go", "acceptor_unix.go", "client_unix.go", "pkg/io/io_linux.go", "pkg/socket/sock_cloexec.go", "pkg/netpoll/poller_epoll_default.go"],
     ["-map", VSHIM_MAP, "-ident", "epollCtl=vEpollCtlF,epollWait=vEpollWaitF", "pkg/netpoll/poller_epoll_ultimate.go"],
 ]
 
@@ -362,13 +362,15 @@ SPECS["C07"] = dict(
          "Unix socket files are gone, descriptors returned by Dup are still open on the same object, and canary socket pairs placed on descriptor numbers right after the framework released them (on the loop goroutine after EventLoop.Close, inside a CloseWithCallback callback, by a task queued behind Conn.Close, by another goroutine after OnClose) were neither read, written nor closed by anyone else, and the socket of a closed connection that the user keeps alive through Conn.Dup is in no epoll set (/proc/self/fdinfo); "
          "second generator: 1..8 dialers connect continuously while Stop is requested after a drawn delay; third generator: 1..6 goroutines call Engine.Register / EventLoop.Enroll while Stop takes effect (every accepted call delivers exactly one result, the descriptor table returns to its state); non-trivial = a session with a close requested from inside a callback or racing causes; distinct = distinct case",
     assumptions=ENGINE_ASSUME + ["descriptor numbers are assigned lowest-free-first by the kernel, which is what puts a canary on a just-released number"],
-    overlay=["verifx/c07"] + LIFE_OVERLAY,
+    overlay=["verifx/c07", "verifx/clix"] + LIFE_OVERLAY + SHIM_OVERLAY,
+    instrument=SHIM_INSTR,
     max_parallel=12,
     jobs=engine_jobs("c07", "./verifx/c07", [
         dict(id="histories", run="^TestC07Histories$", quick=dict(shards=5, checks=300, timeout=600, shrinktime=30), thorough=dict(shards=4, checks=8000, timeout=3400, shrinktime=300)),
         dict(id="flood", run="^TestC07ShutdownUnderConnects$", quick=dict(shards=1, checks=40, timeout=600, shrinktime=20), thorough=dict(shards=2, checks=1000, timeout=3400, shrinktime=120)),
         dict(id="regstop", run="^TestC07RegisterAtShutdown$", quick=dict(shards=1, checks=40, timeout=600, shrinktime=20), thorough=dict(shards=2, checks=1000, timeout=3400, shrinktime=120)),
         dict(id="failedstart", run="^TestC07FailedStart$", quick=dict(shards=1, checks=150, timeout=600, shrinktime=20), thorough=dict(shards=2, checks=5000, timeout=3400, shrinktime=120)),
+        dict(id="clientstop", run="^TestC07ClientStop$", quick=dict(shards=3, checks=14, timeout=600, shrinktime=20), thorough=dict(shards=3, checks=500, timeout=3400, shrinktime=120)),
     ]),
 )
 
@@ -410,7 +412,7 @@ SPECS["C19"] = dict(
          "oracle: the allowed errors per state, CountConnections -1 outside the running state, one result per accepted Register/Enroll call - also when it was accepted while the engine was shutting down - that is a usable connection (a byte echoes) or an error, runnables run once, Stop(nil) only when every opened connection has been closed and OnShutdown ran, Stop(expired) returns the context error and Run still returns, a second Stop reports in-shutdown; "
          "non-trivial = a case with calls issued between the shutdown request and its completion; distinct = distinct case",
     assumptions=ENGINE_ASSUME + ["Engine.Register is not combined with Round-Robin load balancing (documented data race)", "client handles report the empty-engine error by construction and are not exercised here"],
-    overlay=["verifx/c19"] + FX_OVERLAY + SHIM_OVERLAY,
+    overlay=["verifx/c19", "verifx/clix"] + FX_OVERLAY + SHIM_OVERLAY,
     instrument=SHIM_INSTR,
     max_parallel=12,
     jobs=engine_jobs("c19", "./verifx/c19", [
@@ -426,12 +428,13 @@ SPECS["C05"] = dict(
          "on drawn connections (closed ones included), Engine.Stop after a drawn share of the work; oracle 1: every OnOpen/OnTraffic/OnClose, async callback and runnable of one loop runs on one goroutine, distinct loops on distinct goroutines, never two at once on a loop, a connection never changes loops; "
          "oracle 2: any race-detector report whose two stacks are inside the framework; non-trivial = at least two loops ran callbacks while at least two external goroutines were issuing calls; distinct = distinct case",
     assumptions=["the race detector judges only the executed schedules", "Engine.Register is not combined with Round-Robin", "socket-option setters are issued on connections as drawn (a stale descriptor number would only receive option changes)"],
-    overlay=["verifx/c05"] + FX_OVERLAY,
+    overlay=["verifx/c05", "verifx/clix", "internal/vshim"] + FX_OVERLAY,
     max_parallel=8,
     # -race switches on checkptr, which rejects the poll_opt poller's deliberately unaligned epoll_event.data
     # access (not a data race): checkptr is switched off for that tag set
     jobs=[dict(name="c05-" + tagname(tg), pkg="./verifx/c05", tags=tg, race=True, gcflags=("all=-d=checkptr=0" if "poll_opt" in tg else ""), tests=[
         dict(id="race", run="^TestC05RaceAndConfinement$", quick=dict(shards=4, checks=80, timeout=600, shrinktime=20, env={"GOMAXPROCS": 8}), thorough=dict(shards=8, checks=3000, timeout=3400, shrinktime=120, env={"GOMAXPROCS": 8})),
+        dict(id="clientstop", run="^TestC05ClientStop$", quick=dict(shards=3, checks=8, timeout=600, shrinktime=5), thorough=dict(shards=4, checks=300, timeout=3400, shrinktime=30)),
         dict(id="poolchurn", run="^TestC05PoolChurnAcrossLoops$", quick=dict(shards=1, checks=5, timeout=600, shrinktime=5, env={"GOMAXPROCS": 8}), thorough=dict(shards=2, checks=30, timeout=3400, shrinktime=30, env={"GOMAXPROCS": 8})),
     ]) for tg in ["", "poll_opt,gc_opt"]],
 )
